@@ -106,6 +106,21 @@ Section P2.
       nth r (snd (inverse_dynamics O M w1 q qd qdd z None)) (o0 O) =
       oadd O (nth r (snd (inverse_dynamics O M w2 q qd z z None)) (o0 O)) (nth r (mvmul O H qdd) (o0 O)).
   Proof. intros W C V R J N2 G0 G1 G2 L. exact (id_affine_in_qddot O M q qd W C V R J N2 w0 w1 w2 qdd G0 G1 G2 L). Qed.
+  (* ... and with NonlinearEffects itself: tau = H qdd + N for every qddot, literally *)
+  Theorem C03_inverse_dynamics_is_H_qddot_plus_nonlinear_effects (M : @Model T) q qd qdd (w0 w1 w2 : @WS T) : WF M ->
+    (forall i j, 0 < i < nbodies M -> 0 < j < nbodies M -> i <> j ->
+       is_custom (jkind (getJ M i)) = true -> is_custom (jkind (getJ M j)) = true -> jcust (getJ M i) <> jcust (getJ M j)) ->
+    (forall i u, 0 < i < nbodies M -> bvirtual (getbody O M i) = true -> rbi_mulv O (getI O M i) u = svzero O) ->
+    jq (getJ M 0) + jdof (getJ M 0) = 0 ->
+    (forall i, 0 < i < nbodies M -> joint_wf O M q i) -> o2 O <> o0 O -> order_ok M = true ->
+    Good O M w0 -> Good O M w1 -> Good O M w2 -> length qdd = dof_count M ->
+    let n := dof_count M in
+    let z := vzeros (o0 O) n in
+    let H := snd (crba O M (ukc_q O M w0 q) q (zerosM O n n) false) in
+    forall r, r < n ->
+      nth r (snd (inverse_dynamics O M w1 q qd qdd z None)) (o0 O) =
+      oadd O (nth r (snd (nonlinear_effects O M w2 q qd z None)) (o0 O)) (nth r (mvmul O H qdd) (o0 O)).
+  Proof. intros W C V R J N2 Ord G0 G1 G2 L. exact (id_is_H_qddot_plus_nle O M q qd W C V R J N2 w0 w1 w2 qdd Ord G0 G1 G2 L). Qed.
 End P2.
 Print Assumptions C03_nonlinear_effects_is_inverse_dynamics_at_zero_acceleration.
 Print Assumptions C03_nonlinear_effects_outward_pass.
@@ -115,3 +130,4 @@ Print Assumptions C03_inertia_matrix_quadratic_form_is_twice_kinetic_energy.
 Print Assumptions C03_half_qd_H_qd_is_CalcKineticEnergy.
 Print Assumptions C03_inertia_matrix_is_sum_of_JT_I_J.
 Print Assumptions C03_inverse_dynamics_is_H_qddot_plus_bias.
+Print Assumptions C03_inverse_dynamics_is_H_qddot_plus_nonlinear_effects.
